@@ -1,4 +1,4 @@
-package streams
+package main
 
 import (
 	"encoding/json"
